@@ -1158,7 +1158,9 @@ class x86allmncs(object):
         addop("inc",   [0x40],             reg  , no_rm         , {}                 ,{}                , {},                         )
         addop("inc",   [0xFE],             d0   , no_rm         , {w8:(0,0)}         ,{}                , {},                         )
 
-        addop("ins",   [0x6C],             noafs, no_rm         , {w8:(0,0)}         ,{}                , {},                         )
+        addop("insb",  [0x6C],             noafs, no_rm         , {}                 ,{w8:True}         , {},                         )
+        addop("insd",  [0x6D],             noafs, no_rm         , {}                 ,{w8:False}        , {},                         )
+        addop("insw",  [0x66, 0x6D],       noafs, no_rm         , {}                 ,{w8:False}        , {},                         )
 
         addop("int",   [0xCC],             noafs, [im3]         , {}                 ,{}                , {},                         )
         addop("int",   [0xCD],             noafs, [u08]         , {}                 ,{}                , {},                         )
@@ -1169,6 +1171,7 @@ class x86allmncs(object):
         addop("invlpg",[0x0F, 0x01],       d7   , no_rm         , {}                 ,{}                , {},                         )
 
         addop("iret",  [0xCF],             noafs, no_rm         , {}                 ,{}                , {bkf:True}                  )
+        addop("iretw", [0x66, 0xCF],       noafs, no_rm         , {}                 ,{}                , {bkf:True}                  )
 
         addop("j",     [0x70],             cond , [s08]         , {}                 ,{}                , {bkf:True,spf:True,dtf:True})
         addop("j",     [0x0F, 0x80],       cond , [s32]         , {}                 ,{}                , {bkf:True,spf:True,dtf:True})
@@ -1242,14 +1245,18 @@ class x86allmncs(object):
 
         addop("out",   [0xE6],             noafs, [u08,r_eax]   , {w8:(0,0)}         ,{}                , {},                         )
         addop("out",   [0xEE],             noafs, [r_dx,r_eax]  , {w8:(0,0)}         ,{}                , {},                         )
-        addop("outs",  [0x6E],             noafs, no_rm         , {w8:(0,0)}         ,{}                , {},                         )
+        addop("outsb", [0x6E],             noafs, no_rm         , {}                 ,{w8:True}         , {},                         )
+        addop("outsd", [0x6F],             noafs, no_rm         , {}                 ,{w8:False}        , {},                         )
+        addop("outsw", [0x66, 0x6F],       noafs, no_rm         , {}                 ,{w8:False}        , {},                         )
 
         addop("pause", [0xF3, 0x90],       noafs, no_rm         , {}                 ,{}                , {},                         )
 
         addop("pop",   [0x58],             reg  , no_rm         , {}                 ,{}                , {},                         )
         addop("pop",   [0x8F],             d0   , no_rm         , {}                 ,{}                , {},                         )
         addop("popad", [0x61],             noafs, no_rm         , {}                 ,{}                , {},                         )
+        addop("popaw", [0x66, 0x61],       noafs, no_rm         , {}                 ,{}                , {},                         )
         addop("popfd", [0x9D],             noafs, no_rm         , {}                 ,{}                , {},                         )
+        addop("popfw", [0x66, 0x9D],       noafs, no_rm         , {}                 ,{}                , {},                         )
         addop("pop",   [0x07],             noafs, [r_es]        , {}                 ,{sg:True,}        , {},                         )
         addop("pop",   [0x17],             noafs, [r_ss]        , {}                 ,{sg:True,}        , {},                         )
         addop("pop",   [0x1f],             noafs, [r_ds]        , {}                 ,{sg:True,}        , {},                         )
@@ -1267,7 +1274,9 @@ class x86allmncs(object):
         addop("push",  [0x50],             reg  , no_rm         , {}                 ,{}                , {},                         )
         addop("push",  [0xFF],             d6   , no_rm         , {}                 ,{}                , {},                         )
         addop("pushad",[0x60],             noafs, no_rm         , {}                 ,{}                , {},                         )
+        addop("pushaw",[0x66, 0x60],       noafs, no_rm         , {}                 ,{}                , {},                         )
         addop("pushfd",[0x9C],             noafs, no_rm         , {}                 ,{}                , {},                         )
+        addop("pushfw",[0x66, 0x9C],       noafs, no_rm         , {}                 ,{}                , {},                         )
         addop("push",  [0x0E],             noafs, [r_cs]        , {}                 ,{sg:True,}        , {},                         )
         addop("push",  [0x06],             noafs, [r_es]        , {}                 ,{sg:True,}        , {},                         )
         addop("push",  [0x16],             noafs, [r_ss]        , {}                 ,{sg:True,}        , {},                         )
@@ -1764,8 +1773,21 @@ class x86allmncs(object):
         self.pushfw_m = mnemonic(pm.name, pm.opc, pm.afs, pm.rm, pm.modifs, pm.modifs_orig, None)#, pm.sem)
         self.pushfw_m.name = "pushfw"
 
+        pm = self.db_mnemo[0x9d]
         self.popfw_m = mnemonic(pm.name, pm.opc, pm.afs, pm.rm, pm.modifs, pm.modifs_orig, None)#, pm.sem)
         self.popfw_m.name = "popfw"
+
+        pm = self.db_mnemo[0x60]
+        self.pushaw_m = mnemonic(pm.name, pm.opc, pm.afs, pm.rm, pm.modifs, pm.modifs_orig, None)
+        self.pushaw_m.name = "pushaw"
+
+        pm = self.db_mnemo[0x61]
+        self.popaw_m = mnemonic(pm.name, pm.opc, pm.afs, pm.rm, pm.modifs, pm.modifs_orig, None)
+        self.popaw_m.name = "popaw"
+
+        pm = self.db_mnemo[0xcf]
+        self.iretw_m = mnemonic(pm.name, pm.opc, pm.afs, pm.rm, pm.modifs, pm.modifs_orig, None)
+        self.iretw_m.name = "iretw"
 
         pm = self.find_mnemo("lodsd")[0]
         self.lodsw_m = mnemonic(pm.name, pm.opc, pm.afs, pm.rm, pm.modifs, pm.modifs_orig, None)#, pm.sem)
@@ -1786,6 +1808,14 @@ class x86allmncs(object):
         pm = self.find_mnemo("scasd")[0]
         self.scasw_m = mnemonic(pm.name, pm.opc, pm.afs, pm.rm, pm.modifs, pm.modifs_orig, None)#, pm.sem)
         self.scasw_m.name = "scasw"
+
+        pm = self.find_mnemo("insd")[0]
+        self.insw_m = mnemonic(pm.name, pm.opc, pm.afs, pm.rm, pm.modifs, pm.modifs_orig, None)
+        self.insw_m.name = "insw"
+
+        pm = self.find_mnemo("outsd")[0]
+        self.outsw_m = mnemonic(pm.name, pm.opc, pm.afs, pm.rm, pm.modifs, pm.modifs_orig, None)
+        self.outsw_m.name = "outsw"
 
         pm = self.find_mnemo("xrstor")[0]
         self.lfence_m = mnemonic(pm.name, pm.opc, pm.afs, pm.rm, pm.modifs, pm.modifs_orig, None)
@@ -1897,6 +1927,7 @@ att_mnemo_table = {
         'sahf', 'bswap',
         'movsb', 'cmpsb', 'stosb', 'lodsb', 'scasb',
         'movsw', 'cmpsw', 'stosw', 'lodsw', 'scasw',
+        'insb', 'insw', 'outsb', 'outsw',
         'aaa', 'aad', 'aam', 'aas', 'daa', 'das', 'clc', 'cld', 'cli', 'cmc',
         'stc', 'std', 'sti',
         'cpuid', 'in', 'out', 'ud2', 'wait',
@@ -1922,7 +1953,7 @@ att_mnemo_table = {
         'lidt', 'lldt', 'lmsw', 'ltr', 'sgdt', 'sidt', 'sldt', 'smsw', 'str',
         'verr', 'verw', 'invlpg',
         'loop', 'loope', 'loopne',
-        'popfw', 'pushfw',
+        'popfw', 'pushfw', 'popaw', 'pushaw', 'iretw',
         'ftst', 'fxtract', 'fbld', 'fbstp', 'fldenv', 'fnsave', 'fnstenv',
         'frstor', 'fcomi', 'fcomip',
         ] + mnemo_mmx + mnemo_prefetch + mnemo_float_optional_suffix,
@@ -1956,6 +1987,8 @@ att_mnemo_table = {
         'stosl': 'stosd',
         'lodsl': 'lodsd',
         'scasl': 'scasd',
+        'insl':  'insd',
+        'outsl': 'outsd',
         'pushf': 'pushfd',
         'pushfl':'pushfd',
         'popf':  'popfd',
@@ -2871,10 +2904,17 @@ class x86_mn(x86_mn_base):
                 if not len(self.arg) or not self.arg[0]['ad']:
                     self.m = x_0f_ae[self.m.name]
                     self.arg = []
-            if self.opmode == u16 and self.m.name == "pushfd":
-                self.m = x86mndb.pushfw_m
-            if self.opmode == u16 and self.m.name == "popfd":
-                self.m = x86mndb.popfw_m
+            x_16 = {
+                'pushfd': x86mndb.pushfw_m, 'popfd': x86mndb.popfw_m,
+                'pushad': x86mndb.pushaw_m, 'popad': x86mndb.popaw_m,
+                'iret':   x86mndb.iretw_m,
+                'insd':   x86mndb.insw_m,   'outsd': x86mndb.outsw_m,
+                }
+            if self.opmode == u16 and self.m.name in x_16:
+                # the 16-bit form has its own name, which stands for the
+                # operand-size prefix
+                self.m = x_16[self.m.name]
+                self.prefix = [_ for _ in self.prefix if _ != 0x66]
             if self.m.name.startswith("lods"):
                 if self.m.name[-1] == "b":
                     s = u08
